@@ -7,6 +7,7 @@ from typing import Dict, List, Optional, Set, Tuple
 
 from ..core import AnalysisError, RuleSpec
 from ..pymodel import call_name
+from .. import astq
 from ..specs.keywords import PAREN_KEYWORDS
 
 EXPLANATION = (
@@ -77,54 +78,103 @@ def r1_not_scanned(ctx, rep):
 
 
 def r2_filter_dominance(ctx, rep):
+    """Decided on the condition-annotated event trace of _add_procedure_calls (early `continue`s contribute negated
+    conditions), so one combined test and several separate tests are the same thing."""
     py = ctx.py
     fn = py.func("FortranContainer._add_procedure_calls")
-    appends = [c for c in py.walk_calls(fn) if call_name(c) == "self.calls.append"]
-    if len(appends) != 1:
-        raise AnalysisError(f"_add_procedure_calls: {len(appends)} appends to self.calls")
-    ap = appends[0]
-    loop = ap
-    while not isinstance(loop, ast.For):
-        loop = py.parents[loop]
-    stmts = loop.body
-    idx = [i for i, s in enumerate(stmts) if ap in list(ast.walk(s))][0]
-    before = stmts[:idx]
-    txt = [ast.unparse(s) for s in before]
-    filt = [s for s in before if isinstance(s, ast.If) and any(isinstance(x, ast.Continue) for x in s.body)]
-    ok = bool(filt) and "call_chain[-1] in INTRINSICS" in ast.unparse(filt[-1].test)
-    rep.ob("append dominated by the INTRINSICS filter on the last chain element", ok,
-           "`call_chain[-1] in INTRINSICS` -> continue precedes the append" if ok else
-           "the intrinsic/keyword filter no longer dominates self.calls.append", py.nloc(ap))
-    t = ast.unparse(filt[-1].test) if filt else ""
-    ok = re.search(r"call_chain\[-1\] in \(call\[-1\] for call in self\.calls\)", t) is not None
-    rep.ob("de-duplication compares the last chain elements", ok,
-           "a procedure reached through different receiver chains is recorded once" if ok else
-           f"de-duplication test is `{t[:90]}`: two chains ending in the same procedure (a%area(), b%area()) are both "
-           f"recorded, and both resolve to one procedure", py.nloc(filt[-1]) if filt else py.nloc(ap))
-    ok = any(".lower().split('%')" in x for x in txt)
-    rep.ob("chain lower-cased before the tests", ok, "", py.nloc(loop))
-    assoc = [i for i, s in enumerate(before) if "associations" in ast.unparse(s)]
-    fi = before.index(filt[-1]) if filt else -1
-    ok = bool(assoc) and assoc[0] < fi
-    rep.ob("ASSOCIATE names substituted before the tests", ok, "", py.nloc(loop))
+    ev = astq.trace(fn)
+    idx = {id(e): i for i, e in enumerate(ev)}
+    aps = [e for e in ev if e.kind == "call" and call_name(e.node) == "self.calls.append"]
+    if len(aps) != 1 or not aps[0].node.args or not isinstance(aps[0].node.args[0], ast.Name):
+        raise AnalysisError(f"_add_procedure_calls: expected one `self.calls.append(<chain>)`, found {len(aps)}")
+    ap = aps[0]
+    chain = ap.node.args[0].id
+
+    def is_last_of_chain(e: ast.AST) -> bool:
+        for x in astq.expand_locals(e, fn):
+            if isinstance(x, ast.Subscript) and isinstance(x.value, ast.Name) and x.value.id == chain and ast.unparse(x.slice) == "-1":
+                return True
+        return False
+
+    def disjuncts(t: ast.AST) -> List[ast.AST]:
+        if isinstance(t, ast.BoolOp) and isinstance(t.op, ast.Or):
+            return [d for v in t.values for d in disjuncts(v)]
+        return [t]
+    negs = [d for t, pol, _ in ap.conds if not pol for d in disjuncts(t)]
+    intr = [d for d in negs if isinstance(d, ast.Compare) and len(d.ops) == 1 and isinstance(d.ops[0], ast.In)
+            and ast.unparse(d.comparators[0]).split(".")[-1] == "INTRINSICS" and is_last_of_chain(d.left)]
+    rep.ob("append dominated by the INTRINSICS filter on the last chain element", bool(intr),
+           "`<last element> in INTRINSICS` -> continue precedes the append" if intr else
+           "the intrinsic/keyword filter no longer dominates self.calls.append", py.nloc(ap.node))
+    # de-duplication: the probe is the last element, compared with the last element of every recorded chain
+    dd = [d for d in negs if "self.calls" in ast.unparse(d)]
+    good = False
+    for d in dd:
+        for n in ast.walk(d):
+            if isinstance(n, (ast.GeneratorExp, ast.ListComp, ast.SetComp)) and len(n.generators) == 1 and \
+                    ast.unparse(n.generators[0].iter) == "self.calls" and isinstance(n.generators[0].target, ast.Name):
+                v = n.generators[0].target.id
+                last_known = lambda x: isinstance(x, ast.Subscript) and isinstance(x.value, ast.Name) and x.value.id == v and ast.unparse(x.slice) == "-1"  # noqa: E731
+                if last_known(n.elt):
+                    # <probe> in (k[-1] for k in self.calls)
+                    par = py.parents.get(n)
+                    if isinstance(par, ast.Compare) and isinstance(par.ops[0], ast.In) and is_last_of_chain(par.left):
+                        good = True
+                    if isinstance(par, ast.Call) and call_name(par) in ("set", "list", "tuple", "frozenset"):
+                        pp = py.parents.get(par)
+                        if isinstance(pp, ast.Compare) and isinstance(pp.ops[0], ast.In) and is_last_of_chain(pp.left):
+                            good = True
+                if isinstance(n.elt, ast.Compare) and len(n.elt.ops) == 1 and isinstance(n.elt.ops[0], ast.Eq):
+                    # any(<probe> == k[-1] for k in self.calls)
+                    l, r = n.elt.left, n.elt.comparators[0]
+                    if (last_known(l) and is_last_of_chain(r)) or (last_known(r) and is_last_of_chain(l)):
+                        par = py.parents.get(n)
+                        if isinstance(par, ast.Call) and call_name(par) == "any":
+                            good = True
+    t = ast.unparse(dd[0])[:90] if dd else "(none)"
+    rep.ob("de-duplication compares the last chain elements", good,
+           "a procedure reached through different receiver chains is recorded once" if good else
+           f"de-duplication test is `{t}`: two chains ending in the same procedure (a%area(), b%area()) are both "
+           f"recorded, and both resolve to one procedure", py.nloc(dd[0]) if dd else py.nloc(ap.node))
+    cdef = [e for e in ev if e.kind == "assign" and e.target == chain and e.value is not None]
+    ok = bool(cdef) and ".lower()" in ast.unparse(cdef[0].value) and ".split('%')" in ast.unparse(cdef[0].value)
+    rep.ob("chain lower-cased before the tests", ok, "", py.nloc(cdef[0].node) if cdef else py.nloc(fn))
+    assoc = [e for e in ev if e.kind == "assign" and e.target and e.target.startswith(chain + "[") and "associations" in ast.unparse(e.value)]
+    ok = bool(assoc) and idx[id(assoc[0])] < idx[id(ap)] and not any("INTRINSICS" in c for c in assoc[0].cond_texts())
+    rep.ob("ASSOCIATE names substituted before the tests", ok, "", py.nloc(assoc[0].node) if assoc else py.nloc(fn))
     co = py.func("FortranCodeUnit.correlate")
-    t = ast.unparse(co)
-    ok = "if not isinstance(item, (FortranVariable, FortranType)):\n" in t and "tmplst.append(item)" in t
+    cev = astq.trace(co)
+    found = [e for e in cev if e.kind == "assign" and e.value is not None and isinstance(e.value, ast.Call)
+             and call_name(e.value).endswith("_find_chain_item")]
+    if not found:
+        raise AnalysisError("FortranCodeUnit.correlate: `item = self._find_chain_item(call)` not found")
+    item = found[0].target
+    callv = ast.unparse(found[0].value.args[0])
+    keeps = [e for e in cev if e.kind == "call" and call_name(e.node).endswith(".append") and e.node.args
+             and ast.unparse(e.node.args[0]) == item]
+    ok = bool(keeps) and any(re.match(r"not \(?isinstance\(", c) and "FortranVariable" in c and "FortranType" in c for c in keeps[0].cond_texts())
     rep.ob("resolved variables and types are dropped from calls", ok, "", py.nloc(co))
-    ok = "item = self._find_chain_item(call)" in t and "tmplst.append(call[-1])" in t
+    names = [e for e in cev if e.kind == "call" and call_name(e.node).endswith(".append") and e.node.args
+             and ast.unparse(e.node.args[0]) == f"{callv}[-1]"]
+    ok = bool(names) and astq.implied_none_tests(names[0]).get(item) is True
     rep.ob("unresolved calls keep their name", ok, "", py.nloc(co))
-    # SUBCALL consumes level 0; CALL_RE is applied to every parenthesis depth
-    t = ast.unparse(fn)
-    ok = "while len(_lines) > 0" in t and "parendepth += 1" in t and "strip_paren(line, parendepth)" in t
+    # function references are searched at every parenthesis depth: strip_paren(line, <d>) inside a loop that increments <d>
+    sp = [e for e in ev if e.kind == "call" and call_name(e.node).endswith("strip_paren") and len(e.node.args) >= 2]
+    loops = [n for n in ast.walk(fn) if isinstance(n, ast.While)]
+    ok = False
+    for lp in loops:
+        incs = {ast.unparse(n.target) for n in ast.walk(lp) if isinstance(n, ast.AugAssign) and isinstance(n.op, ast.Add)}
+        calls_in = [c for c in ast.walk(lp) if isinstance(c, ast.Call) and call_name(c).endswith("strip_paren") and len(c.args) >= 2
+                    and ast.unparse(c.args[1]) in incs]
+        finds = [c for c in ast.walk(lp) if isinstance(c, ast.Call) and call_name(c).endswith("CALL_RE.finditer")]
+        ok = ok or (bool(calls_in) and bool(finds))
     rep.ob("function references are searched at every parenthesis depth", ok, "", py.nloc(fn))
 
 
 def r3_keyword_table(ctx, rep):
     py = ctx.py
-    vals: Set[str] = set()
-    for st in py.modules["intrinsics"].body:
-        if isinstance(st, ast.Assign) and any(isinstance(t, ast.Name) and t.id == "INTRINSICS" for t in st.targets):
-            vals = {e.value for e in st.value.elts if isinstance(e, ast.Constant)}
+    v = py.const_value("intrinsics", "INTRINSICS")
+    vals: Set[str] = set(v) if isinstance(v, (list, tuple, set, frozenset)) else set()
     if len(vals) < 300:
         raise AnalysisError("INTRINSICS table not found")
     for kw, clause in sorted(PAREN_KEYWORDS.items()):
